@@ -472,10 +472,10 @@ def psk_model(x):
     if h == "scan":
         return ("scan ?",)
     if h in ("hashaggregate", "ungroupedaggregate"):
+        if h == "hashaggregate" and head[2] == "0":
+            return ("hashdistinct",) + tuple(kids)
         kids = [("project *",) + kk[1:] if kk[0].startswith("project ") else kk for kk in kids]
         if h == "hashaggregate":
-            if head[2] == "0":
-                return ("hashdistinct",) + tuple(kids)
             return ("hashaggregate %s" % head[1], ("naggs", int(head[2]))) + tuple(kids)
         return ("ungroupedaggregate", ("naggs", int(head[1]))) + tuple(kids)
     if h == "exprlist":
@@ -518,3 +518,131 @@ def compare_physical(recs, cnt, tables_of):
         else:
             cnt["physical_diff"] += 1
             rec["poutcome"] = "physical_diff"
+
+
+# ---------------------------------------------------------------- end to end on data (extracted exec_pplan)
+def run_e2e(gmodel, work, rng):
+    lines, idx = [], []
+    for w in work:
+        sch = "(sch (%s))" % " ".join(str(len(t[1])) for t in w["tables"])
+        dbsx = sqlgen.sx_db(w["tables"])
+        for q in w["queries"]:
+            p, bsz, rev = rng.choice([1, 2, 3, 8]), rng.choice([1, 2, 3, 7, 64]), rng.below(2)
+            lines.append("(e2e %s %s %s %d %d %d)" % (sch, dbsx, q.sx, p, bsz, rev))
+            idx.append((w, q, {"partitions": p, "batch": bsz, "reversed": rev}))
+    outs = common.run_model(gmodel, "x", lines, timeout=3600) if lines else []
+    cnt = {"e2e_ok": 0, "e2e_mismatch": 0, "e2e_execerr": 0, "e2e_specerr": 0, "e2e_other": 0}
+    bad = []
+    for (w, q, cfg), o in zip(idx, outs):
+        k = {"OK": "e2e_ok", "MISMATCH": "e2e_mismatch"}.get(o) or \
+            ("e2e_execerr" if o.startswith("EXECERR") else "e2e_specerr" if o.startswith("SPECERR") else "e2e_other")
+        cnt[k] += 1
+        if k in ("e2e_mismatch", "e2e_other"):
+            bad.append({"sql": q.sql, "ast": q.sx, "config": cfg, "verdict": o, "db": sqlgen.sx_db(w["tables"])})
+    return cnt, bad
+
+
+# ---------------------------------------------------------------- the refuted full-strength statement, on the engine
+WITNESS = ["create temp table w0 (c0 int)", "create temp table w1 (c0 int)", "insert into w1 values (2147483647)",
+           "select x1.c0 from w0 as x1 inner join w1 as x2 on (x1.c0 = x2.c0 and (x2.c0 + 1) > 0)"]
+
+
+def witness_replay(gverif):
+    r = common.run_harness(gverif, "sql", [{"id": "w", "mode": "det", "partitions": 2, "sched": {"kind": "fifo", "seed": 1},
+                                            "stmts": WITNESS, "timeout_s": 30}], timeout=120)[0]
+    res = r.get("results") or []
+    last = res[-1] if len(res) == len(WITNESS) else {}
+    return {"stmts": WITNESS, "engine": last}
+
+
+def is_on_pushdown_error(rep):
+    """class on-pushdown-error: the statement is an inner/left/right join whose ON has a conjunct over one input only,
+    the other input is empty, the engine answers an arithmetic error and the reference semantics answers no row"""
+    e = rep.get("engine") or {}
+    return (not e.get("ok")) and "overflow" in str(e.get("err", "")).lower()
+
+
+def run(ctx):
+    t0 = time.time()
+    rng = common.Rng(ctx["seed"])
+    out = {"violations": [], "known": [], "assumptions": []}
+    gverif, _ = common.build_harness(bin="gverif")
+    pr = common.coq_props(PROPS)
+    audit = common.audit_sources()
+    obligations = pr["declared"]
+    bad_assum = common.check_assumptions(pr) if pr["ok"] else []
+    discharged = len(obligations) if pr["ok"] and not bad_assum and not audit else 0
+    gmodel = common.build_ocaml("plan")
+    # ---- correspondence: the model's planner is the engine's planner
+    ncase = 250 if ctx["tier"] == "quick" else 2500
+    work = make_work(rng, ncase)
+    recs, cnt = compare_logical(gverif, gmodel, work)
+    compare_physical(recs, cnt, None)
+    e2e_cnt, e2e_bad = run_e2e(gmodel, work, rng)
+    cnt.update(e2e_cnt)
+    cap = {}
+
+    def add(what, replay):
+        cap[what] = cap.get(what, 0) + 1
+        if cap[what] <= 5:
+            out["violations"].append({"what": what, "replay": replay, "no_input": False})
+
+    for r in recs:
+        rep = {"sql": r["sql"], "ast": r["ast"], "classes": r["classes"], "stmts": r["stmts"]}
+        oc = r.get("outcome")
+        if oc == "logical_diff":
+            add("planner correspondence: the engine's unoptimized logical plan differs from plan_of q",
+                dict(rep, model=r.get("model_sk"), engine=r.get("engine")))
+        elif oc == "engine_plan_error":
+            add("planner correspondence: the engine does not plan a query of the supported fragment",
+                dict(rep, engine_error=str(r.get("engine_err"))[:400]))
+        elif oc in ("parse_unsupported", "model_badcase"):
+            add("planner correspondence: EXPLAIN output / AST outside the vocabulary of the check", dict(rep, why=r.get("why")))
+        if r.get("poutcome") == "physical_diff":
+            add("planner correspondence: the engine's physical plan differs from phys_of (plan_of q)",
+                dict(rep, model=r.get("pmodel_sk"), engine=r.get("pengine")))
+        elif r.get("poutcome") == "parse_unsupported":
+            add("planner correspondence: physical EXPLAIN output outside the vocabulary of the check", dict(rep, why=r.get("pwhy")))
+        if r.get("pskel_lemma_failed"):
+            add("pskel (phys_of l) <> phys_sk (lskel l) on a subquery-free plan (the two transcriptions of the physical planner disagree)", rep)
+        ev = (r.get("eval") or "").split(" ")
+        if ev and ev[0] == "DIFF":
+            add("extracted eval_lplan (plan_of q) and eval_query q both answer rows and differ: theorem C01_plan_of_correct_partial does not describe the extracted code",
+                dict(rep, verdict=r.get("eval")))
+    for b in e2e_bad:
+        add("extracted exec_pplan (phys_of (plan_of q)) is not admitted by check_answer: theorems C01_end_to_end_* do not describe the extracted code", b)
+    # ---- the refuted full-strength statement, replayed
+    wit = witness_replay(gverif)
+    kf = [k for k in common.known_findings()["known"] if k.get("property") == PID]
+    if is_on_pushdown_error(wit):
+        if any(k.get("id") == "on-pushdown-error" for k in kf):
+            out["known"].append("C01plan on-pushdown-error: a one-sided ON conjunct is evaluated on rows without join partner (%s)"
+                                % str(wit["engine"].get("err"))[:80])
+        else:
+            out["violations"].append({"what": "the planner evaluates a one-sided ON conjunct on rows without join partner: error where the reference semantics answers no row",
+                                      "replay": wit, "no_input": False})
+    cnt["witness_reproduced"] = bool(is_on_pushdown_error(wit))
+    # ---- proofs
+    if (not pr["ok"]) or bad_assum or audit:
+        reason = {"proof_failed_at": pr.get("failed_at"), "log_tail": pr["log"][-1500:] if not pr["ok"] else "",
+                  "assumption_problems": bad_assum, "audit": audit}
+        out["violations"].append({"what": "theorem(s) in %s no longer check" % PROPS, "replay": reason, "no_input": True})
+    samples = [{"sql": r["sql"], "logical": r.get("model_sk"), "physical": r.get("pmodel_sk")} for r in recs[:2]]
+    out["coverage"] = dict(cnt, **{
+        "obligations": len(obligations), "discharged": discharged,
+        "checker_cmd": "cd coq && make props/C01plan.vo (Print Assumptions parsed; Admitted/Axiom audit over coq/)",
+        "trusted_base": ["Coq 8.16.1 kernel (vm_compute in closed Examples / the refutation witness)",
+                         "extraction (ExtrOcamlBasic only) + ocaml/plan.ml (parsing, printing, the concrete runtime handed to exec_pplan)",
+                         "EXPLAIN VERBOSE of the engine as the observation of its planner; vlib/c01plan.py parsing of it",
+                         "skeletons compared modulo: materializations inlined, the dependent-join push-down artefacts of correlated subqueries removed (cross join with the magic scan, appended columns), aggregate counts modulo the binder's duplication, base table identity not visible in the physical tree",
+                         "operator models HashJoin/NlJoin/AggTable/AggState/LimitOp/Merge (C03/C06/C07/C08) as transcriptions of the operators"],
+        "theorems": obligations,
+        "evaluations": cnt["queries"] * 3 + sum(e2e_cnt.values()),
+        "distinct_nontrivial": len(set(r["sql"] for r in recs if r.get("outcome") == "equal")),
+        "rule": "every generated query: (1) skeleton of the engine's unoptimized logical plan = lskel (plan_of q), (2) skeleton of its physical plan = phys_sk (lskel (plan_of q)) and, for subquery-free plans, = pskel (phys_of (plan_of q)), (3) extracted eval_lplan (plan_of q) vs eval_query q on the generated database, (4) check_answer on extracted exec_pplan (phys_of (plan_of q)) under a random partition count / batch size / arrival order; distinct = distinct SQL texts with equal logical skeletons",
+        "samples": samples,
+    })
+    out["assumptions"] = ["the optimizer is switched off for the comparison (the optimizer's rewrites are C02's subject)",
+                          "subquery expressions: their join shapes are compared, their semantics as joins is C09's (shallow) subject, not proved for the deep plans"]
+    out["wall"] = time.time() - t0
+    return out
